@@ -43,6 +43,10 @@ def run(db, rep, feat, tier):
     r4(db, rep, cache)
     r5(db, rep, cache)
     r6(db, rep)
+    r7(db, rep, cache)
+    # the solver walks the program through RefProgramLocation::forward / backward: positional traversal (C18)
+    import idxkind
+    idxkind.rule(db, rep, "R8")
 
 
 def solver_roles(db, rep, r1, fn, cache):
@@ -184,10 +188,17 @@ def r3(db, rep, cache):
                 # the true side must construct FixedPointMaxSteps
                 true_side = t["otherwise"]
                 reach = cfg.reachable(true_side, avoid=[bb for _v, bb in t["targets"]])
-                errs = any(s.get("rv", {}).get("variant") == "Error::FixedPointMaxSteps"
-                           for j in reach for s in body["blocks"][j]["s"])
-                if errs:
+                err_blocks = [j for j in reach for s in body["blocks"][j]["s"]
+                              if s.get("rv", {}).get("variant") == "Error::FixedPointMaxSteps"]
+                if err_blocks:
                     guard = (i, [bb for _v, bb in t["targets"]][0])
+                    # once the budget is exceeded nothing but the error is returned: no path from the true side reaches a
+                    # return (or the solver's state) without constructing FixedPointMaxSteps
+                    esc = cfg.reachable(true_side, avoid=err_blocks + [bb for _v, bb in t["targets"]])
+                    leaks = [j for j in esc if body["blocks"][j]["t"]["k"] == "Return"]
+                    r.decide(not leaks, "budget|exceeded_is_error", db.where(body, t["l"]),
+                             "when the step budget is exceeded a path returns without Err(FixedPointMaxSteps): an unconverged "
+                             "(unsound) state map can be handed back as a result")
     inc = [i for i, b in enumerate(body["blocks"]) if b["t"]["k"] == "Assert" and b["t"]["ak"] == "Overflow"
            and b["t"]["detail"]["op"] == "Add"]
     for tr in trans:
@@ -195,6 +206,28 @@ def r3(db, rep, cache):
         oki = any(cfg.dominates(i, tr) for i in inc)
         r.decide(okg and oki, "budget|%d" % trans.index(tr), db.where(body, body["blocks"][tr]["t"]["l"]),
                  "transfer reachable without passing the step-budget test / increment")
+
+
+def r7(db, rep, cache):
+    r = rep.rule("R7", "K7", "seeding: before the work-list loop the queue receives only the location built from the graph's entry "
+                 "(forward) or exit (backward); locations that the direction's start cannot reach must not be given a state")
+    for fn, acc in ((FWD, "::entry"), (BWD, "::exit")):
+        body = db.mir[fn]
+        tm = terms_of(db, fn, cache)
+        cfg = Cfg(body)
+        pops = [i for i, t in mir_calls(body) if (mir_callee(t) or "").endswith("VecDeque::<T, A>::pop_front")]
+        rep.anchor(len(pops) == 1, "pop_front in %s" % fn)
+        in_loop = cfg.reachable(pops[0])
+        seeds = [(i, t) for i, t in mir_calls(body) if (mir_callee(t) or "").endswith(("VecDeque::<T, A>::push_back", "VecDeque::<T, A>::push_front"))
+                 and i not in in_loop]
+        rep.anchor(bool(seeds), "seed of the work list in %s" % fn)
+        for n, (i, t) in enumerate(seeds):
+            a = tm.operand(t["args"][1])
+            from_start = any(isinstance(x, tuple) and x and x[0] == "call" and str(x[1]).endswith("ControlFlowGraph" + acc) for x in subterms(a))
+            other = [str(x[1]) for x in subterms(a) if isinstance(x, tuple) and x and x[0] == "call" and
+                     any(k in str(x[1]) for k in ("vertices", "blocks", "without_successors", "without_predecessors"))]
+            r.decide(from_start and not other, "%s|seed|%d" % (last_seg(fn), n), db.where(body, t.get("l")),
+                     "the work list is seeded with a location that is not the graph's %s (derived from %s)" % (acc[2:], other[:2]))
 
 
 def r4(db, rep, cache):
